@@ -435,7 +435,7 @@ func Coordinate(opt Options, plan *Plan, store *kf.Store) int {
 		f := store.Findings[i]
 		fmt.Printf("KNOWN-FINDING: property=%s %s %s (%d listed cases hit)\n", opt.Prop, f.ID, f.What, n)
 	}
-	repDir := filepath.Join(opt.Root, "replays", opt.Prop)
+	repDir := filepath.Join(outRoot(opt), "replays", opt.Prop)
 	if nUnknown > 0 {
 		os.MkdirAll(repDir, 0o755)
 		sort.Slice(unknown, func(i, j int) bool {
@@ -506,15 +506,19 @@ func Coordinate(opt Options, plan *Plan, store *kf.Store) int {
 		for k, v := range plan.Extra(total) {
 			cov[k] = v
 		}
+		if b, ok := cov["exhaustive"].(bool); ok && !b {
+			exhaustive = false // a plan may withdraw the claim (e.g. an execution cap was hit), never add it
+		}
+		cov["exhaustive"] = exhaustive
 	}
 	ev := Evidence{PropertyID: opt.Prop, Tier: opt.Tier, Seed: opt.Seed, Level: plan.Level, Coverage: cov,
 		Assumptions: plan.Assume, WallS: time.Since(start).Seconds(), Violations: int(nUnknown)}
 	if ev.Assumptions == nil {
 		ev.Assumptions = []string{}
 	}
-	os.MkdirAll(filepath.Join(opt.Root, "evidence"), 0o755)
+	os.MkdirAll(filepath.Join(outRoot(opt), "evidence"), 0o755)
 	b, _ := json.MarshalIndent(ev, "", " ")
-	if err := os.WriteFile(filepath.Join(opt.Root, "evidence", opt.Prop+".json"), b, 0o644); err != nil {
+	if err := os.WriteFile(filepath.Join(outRoot(opt), "evidence", opt.Prop+".json"), b, 0o644); err != nil {
 		fmt.Fprintln(os.Stderr, "harness: cannot write evidence:", err)
 		return 2
 	}
@@ -647,4 +651,13 @@ func (w *worker) close() {
 	case <-time.After(10 * time.Second):
 		w.cmd.Process.Kill()
 	}
+}
+
+// outRoot is where evidence and replay files go: the framework root, or VF_OUT for maintenance runs against a
+// deliberately changed tree (so that they never overwrite the evidence of the registered checks).
+func outRoot(opt Options) string {
+	if o := os.Getenv("VF_OUT"); o != "" {
+		return o
+	}
+	return opt.Root
 }
